@@ -839,8 +839,12 @@ class System(BaseModel, Serializable):
                     self.logger.info(f"Candidate multi-index: {(alpha, beta)}. Relative error: {delta_error}. "
                                      f"Error indicator: {error_indicator}.")
 
-                    if error_indicator > error_max:
-                        error_max = error_indicator
+                    # An undefined indicator (e.g. 0/0 when the current surrogate is identically zero) must not stall
+                    # training: fall back to the first such candidate unless one with a defined indicator is found
+                    undefined = np.isnan(error_indicator)
+                    if error_indicator > error_max or (undefined and comp_star is None):
+                        if not undefined:
+                            error_max = error_indicator
                         comp_star, alpha_star, beta_star, err_star, cost_star = (
                             comp.name, alpha, beta, delta_error, delta_work)
             else:
